@@ -9,6 +9,7 @@
       repbad <old parsable?> <old fp>
       sni <name>
       auth <authority> <name>...
+      hello <server name on the wire>   MutexCertificateResolver::resolve on a real ClientHello + the strict-SNI snapshot
       authsni <authority> <sni>         authority_matches_sni (the legacy exact predicate)
     obs: ok [<fp>] | err | fp <fp> <key> <name>... | dangling <fp> | none | some <entry> *)
 From Coq Require Import List Arith ZArith NArith String Bool.
@@ -74,6 +75,19 @@ Definition step (st : rstate) (op : list tok) : rstate * list tok :=
       | _ => bad
       end
     else if name =? "bbobs" then (st, args)      (* a replayed strict-SNI black-box scenario (c17sni): the model is not involved, the observation is handed through (props/c17.py:model_ops) *)
+    else if name =? "hello" then
+      match args with
+      | [TB wire] =>
+        (st, (match hello_served no_re_match r wire with
+              | Some fp => [TS "served"; TB fp]
+              | None => [TS "default"]
+              end)
+             ++ (match hello_snapshot no_re_match r wire with
+                 | Some ns => TS "snap" :: map TB ns
+                 | None => [TS "nosnap"]
+                 end))
+      | _ => bad
+      end
     else if name =? "authsni" then
       match args with
       | [TB a; TB sni] => (st, [tn_bool (authority_matches_sni a sni)])
